@@ -7,6 +7,9 @@ PYTHONPATH=. /venv/bin/python -m harness.translate "${VERIF_REPO:-/repo}" > /dev
 cd coq
 coq_makefile -f _CoqProject -o Makefile > /dev/null || exit 1
 timeout 3400 make -k -j16 2>&1 | grep -v '^COQC\|^COQDEP\|^CLEAN' | tail -15
+# sixteen coqc at once can exhaust memory on a from-scratch build (a few files need several GB):
+# whatever is still missing is built again with little parallelism
+timeout 3400 make -k -j3 2>&1 | grep -v '^COQC\|^COQDEP\|^CLEAN' | tail -15
 cd ..
 # no Admitted / Axiom / ... anywhere (comments stripped by the scanner)
 PYTHONPATH=. /venv/bin/python -c "
